@@ -245,6 +245,97 @@ fn scenario(name: &str, emitters: Vec<Vec<usize>>, recover: bool) -> Scenario<S>
     }
 }
 
+/// Several wrappers in one process, and a recovery that has to wait: instance A's recorder parks inside a call, a second
+/// thread calls `into_inner` (which must wait for that call), and meanwhile further emissions arrive through A's wrapper (whether those still reach A's recorder is left open by the
+/// property). Afterwards a second instance B, created in the
+/// same process, works as if A had never existed.
+fn second_instance_part(res: &mut PartResult) {
+    use std::sync::mpsc::channel;
+    res.engine = "scripted history with real threads: a contended recovery of one instance, then a second instance in the same process".into();
+    res.executions = 1;
+    res.states = 1;
+    res.distinct_outcomes = 1;
+    struct Parking {
+        seen: Arc<Mutex<Vec<String>>>,
+        entered: Mutex<Option<std::sync::mpsc::Sender<()>>>,
+        release: Mutex<Option<std::sync::mpsc::Receiver<()>>>,
+    }
+    impl Recorder for Parking {
+        fn describe_counter(&self, _: KeyName, _: Option<Unit>, _: SharedString) {}
+        fn describe_gauge(&self, _: KeyName, _: Option<Unit>, _: SharedString) {}
+        fn describe_histogram(&self, _: KeyName, _: Option<Unit>, _: SharedString) {}
+        fn register_counter(&self, k: &Key, _: &Metadata<'_>) -> Counter {
+            self.seen.lock().unwrap().push(k.name().to_string());
+            if k.name() == "block" {
+                if let Some(tx) = self.entered.lock().unwrap().take() {
+                    let _ = tx.send(());
+                }
+                if let Some(rx) = self.release.lock().unwrap().take() {
+                    let _ = rx.recv_timeout(std::time::Duration::from_secs(20));
+                }
+            }
+            Counter::noop()
+        }
+        fn register_gauge(&self, _: &Key, _: &Metadata<'_>) -> Gauge {
+            Gauge::noop()
+        }
+        fn register_histogram(&self, _: &Key, _: &Metadata<'_>) -> Histogram {
+            Histogram::noop()
+        }
+    }
+    let seen_a = Arc::new(Mutex::new(Vec::new()));
+    let (etx, erx) = channel();
+    let (rtx, rrx) = channel();
+    let (wa, ha) = RecoverableRecorder::new(Parking { seen: seen_a.clone(), entered: Mutex::new(Some(etx)), release: Mutex::new(Some(rrx)) }).verif_build();
+    let wa = Arc::new(wa);
+    let w1 = wa.clone();
+    let t1 = std::thread::spawn(move || {
+        let _ = w1.register_counter(&Key::from_name("block"), &META);
+    });
+    if erx.recv_timeout(std::time::Duration::from_secs(20)).is_err() {
+        res.violation("emission-lost-while-handle-alive", "an emission through the wrapper never entered the recorder".into(), json!({}));
+        return;
+    }
+    let (dtx, drx) = channel();
+    let t2 = std::thread::spawn(move || {
+        let r = ha.into_inner();
+        let _ = dtx.send(());
+        r
+    });
+    // let the recovering thread try (and fail, a call is in flight) for a while
+    std::thread::sleep(std::time::Duration::from_millis(150));
+    for i in 0..5 {
+        let _ = wa.register_counter(&Key::from_name(format!("during-{}", i)), &META);
+    }
+    res.transitions += 7;
+    let returned_early = drx.try_recv().is_ok();
+    let _ = rtx.send(());
+    t1.join().unwrap();
+    let ra = t2.join().unwrap();
+    drop(ra);
+    let got = seen_a.lock().unwrap().clone();
+    if returned_early {
+        res.violation("recovered-while-call-in-flight", "into_inner returned although a call was parked inside the recorder".into(), json!({}));
+    } else if got.first().map(|s| s.as_str()) != Some("block") || got.iter().skip(1).any(|n| !n.starts_with("during-")) {
+        // (whether the emissions made while into_inner is waiting still reach the recorder is left open by the property:
+        // the handle has been given to into_inner, which has not returned)
+        res.violation("emission-lost-while-handle-alive", format!("the recorder of the first instance saw {:?}", got), json!({}));
+    }
+    // a second instance in the same process
+    let seen_b = Arc::new(Mutex::new(Vec::new()));
+    let (wb, hb) = RecoverableRecorder::new(Parking { seen: seen_b.clone(), entered: Mutex::new(None), release: Mutex::new(None) }).verif_build();
+    for i in 0..3 {
+        let _ = wb.register_counter(&Key::from_name(format!("b-{}", i)), &META);
+    }
+    res.transitions += 3;
+    let got_b = seen_b.lock().unwrap().clone();
+    if got_b != vec!["b-0", "b-1", "b-2"] {
+        res.violation("emission-lost-while-handle-alive", format!("a second wrapper created after another instance's contended recovery: its recorder saw {:?} of 3 emissions made while its handle was alive", got_b), json!({}));
+    }
+    drop(hb.into_inner());
+    res.sample(json!({"history": "A: call parks inside the recorder; into_inner waits; 5 emissions; release; recovered. B: fresh instance, 3 emissions", "expected": "A's recorder saw 6 calls, B's 3"}));
+}
+
 fn install_fail_part(res: &mut PartResult) {
     res.engine = "E3 single history on the real process-global recorder".into();
     struct Nop;
@@ -435,7 +526,7 @@ fn install_ok_part(res: &mut PartResult, recover: bool) {
 
 fn parts(ctx: &Ctx) -> Vec<PartSpec> {
     let e1 = |s: &str, pb: u64| PartSpec::new(&format!("e1-{}-pb{}", s, pb), json!({"e1": s, "pb": pb}));
-    let mut v = vec![PartSpec::new("install-fails", json!({"install": true})), PartSpec::new("install-ok-recover", json!({"install_ok": true})), PartSpec::new("install-ok-drop", json!({"install_ok": false}))];
+    let mut v = vec![PartSpec::new("install-fails", json!({"install": true})), PartSpec::new("install-ok-recover", json!({"install_ok": true})), PartSpec::new("install-ok-drop", json!({"install_ok": false})), PartSpec::new("second-instance-after-contended-recovery", json!({"second": true}))];
     if ctx.quick() {
         v.extend([e1("recover", 3), e1("drop", 3), e1("recover-1emitter", 4), e1("recover-unwinding", 3), e1("drop-unwinding", 3)]);
     } else {
@@ -446,6 +537,10 @@ fn parts(ctx: &Ctx) -> Vec<PartSpec> {
 
 fn run(ctx: &Ctx, spec: &PartSpec) -> PartResult {
     let mut res = PartResult::new(&spec.name, "");
+    if spec.arg["second"].as_bool() == Some(true) {
+        second_instance_part(&mut res);
+        return res;
+    }
     if spec.arg["install"].as_bool() == Some(true) {
         install_fail_part(&mut res);
         return res;
@@ -471,7 +566,7 @@ fn main() {
     driver::main(CheckDef {
         prop: "C20",
         level: "model_checking",
-        rule: "every SC interleaving (pb-bounded) of emitting threads using the wrapper returned by RecoverableRecorder (real WeakRecorder / RecoveryHandle code; Arc clone/drop/downgrade/upgrade/try_unwrap are scheduling points via the facade Arc, plus one point inside every recorder call) with a thread calling into_inner() or dropping the handle, emissions also made by a destructor while a caught panic unwinds through its frame; the double counts calls in flight, calls entering after the end, drops; epilogue emissions must be inert; plus process-level histories: a failing install(), and a successful install() followed by the six operations through the facade macros with unusual but legal arguments (empty description carrying only a unit, empty name, labels, explicit target and level; normally and from a destructor during unwinding; what reaches the recorder is compared field by field), a second (failing) install, into_inner() or drop(handle), and the six operations again; distinct = distinct (emissions that reached the recorder) outcomes",
+        rule: "every SC interleaving (pb-bounded) of emitting threads using the wrapper returned by RecoverableRecorder (real WeakRecorder / RecoveryHandle code; Arc clone/drop/downgrade/upgrade/try_unwrap are scheduling points via the facade Arc, plus one point inside every recorder call) with a thread calling into_inner() or dropping the handle, emissions also made by a destructor while a caught panic unwinds through its frame; the double counts calls in flight, calls entering after the end, drops; epilogue emissions must be inert; plus process-level histories: a failing install(), and a successful install() followed by the six operations through the facade macros with unusual but legal arguments (empty description carrying only a unit, empty name, labels, explicit target and level; normally and from a destructor during unwinding; what reaches the recorder is compared field by field), a second (failing) install, a scripted history with two wrapper instances in one process (a recovery of the first that has to wait for a call in flight while further emissions arrive, then a fresh second instance), into_inner() or drop(handle), and the six operations again; distinct = distinct (emissions that reached the recorder) outcomes",
         assumptions: &["sequential consistency", "the wrapper is obtained through the guarded verif_build() (the same private build() that install() uses) instead of being installed as the process-global recorder"],
         parts,
         run,
